@@ -275,7 +275,7 @@ def correspond(run: lib.Run):
     bridgetie.bridge_obligations(run, groups, "c15")
     # which routine class each head gets (incl. the pass-through family: Any, object, TypeVar, Callable, type[...], bare
     # generics, classes without hints) is a theorem over the live _HANDLERS tables (dyn/Dispatch), no longer tie-only
-    lib.run_tie(run, dispatchtie, streams=False, core=True, groups=groups, tag="c15")
+    lib.run_tie(run, dispatchtie, streams=False, core=True, groups=groups[:run.budget(40, 80)], tag="c15")      # the extended class lattice is decided by vm_compute: bounded
     # the class environments handed to the core model are what the code's own hint machinery yields (Model/InspectHints.v)
     try:
         c17_hints.hints_obligations(run, groups, "c15")
